@@ -200,7 +200,7 @@ def generate(rng, prefix="", n_funcs=None, with_main=True, rich=True):
         n_funcs = rng.randint(4, 11)
     funcs = []     # Items with .sig
     ii_funcs = []  # names of (i32,i32)->i32 functions usable in expressions
-    kinds = ["arith", "arith", "sum", "ptr", "sget", "sset", "word", "mutual", "arrmut",
+    kinds = ["arith", "arith", "sum", "extsum", "ptr", "sget", "sset", "word", "mutual", "arrmut",
              "flag", "printv", "len", "guard", "eprint"]
     if not words:
         kinds.remove("word")
@@ -244,6 +244,14 @@ def generate(rng, prefix="", n_funcs=None, with_main=True, rich=True):
             lines.append("return: total")
             body, head = _fn(name, "xs: []i32", "i32", lines)
             it = P.add(Item(name, "fn", body, head, ("slice_i",)))
+        elif kind == "extsum":
+            # C calling convention: an array view is a bare pointer there, so
+            # the length travels as a separate argument
+            lines = ["var total = bias;", "var i: usize = 0;", "{", "\tif i == n", "\t\tgoto done;",
+                     "\ttotal = (total + xs[i] * %d) %% %d;" % (rng.randint(1, 3), MOD),
+                     "\ti = i + 1;", "\tloop;", "}", "done:", "return: total"]
+            body, head = _fn(name, "xs: []i32, n: usize, bias: i32", "i32", lines, True)
+            it = P.add(Item(name, "fn", body, head, ("extslice_i",)))
         elif kind == "ptr":
             k = rng.choice(sorted(kvals))
             lines = ["p = (p + d + %s) %% %d;" % (k, MOD)]
@@ -391,6 +399,9 @@ def generate(rng, prefix="", n_funcs=None, with_main=True, rich=True):
                     lines.append("acc = (acc + %s(%s)) %% %d;" % (f, rng.choice(sorted(tabs)), MOD))
                 else:
                     lines.append("acc = (acc + %s(%s)) %% %d;" % (f, arr_var(), MOD))
+            elif sig[0] == "extslice_i":
+                v = arr_var()
+                lines.append("acc = (acc + %s(%s, |%s|, %d)) %% %d;" % (f, v, v, rng.randint(0, 50), MOD))
             elif sig[0] == "ptr_v":
                 lines.append("%s(&acc, %d);" % (f, rng.randint(0, 30)))
             elif sig[0] == "sget":
